@@ -217,15 +217,37 @@ func (r *RdbReader) readFull(p []byte) error {
 }
 
 func (r *RdbReader) ReadBytesP(n int) []byte {
-	p := make([]byte, n)
-	err := r.readFull(p)
+	p, err := r.ReadBytes(n)
 	panicIfErr(err)
 	return p
 }
 
+// the buffer of a value larger than this grows as the input delivers it
+const readBytesChunk = 64 << 20
+
+// ReadBytes reads exactly n bytes. A damaged length field ends in a read error,
+// not in an allocation that the process cannot satisfy.
 func (r *RdbReader) ReadBytes(n int) ([]byte, error) {
-	p := make([]byte, n)
-	return p, r.readFull(p)
+	if n < 0 {
+		return nil, errors.Errorf("invalid length : %d", n)
+	}
+	if n <= readBytesChunk {
+		p := make([]byte, n)
+		return p, r.readFull(p)
+	}
+	p := make([]byte, 0, readBytesChunk)
+	for len(p) < n {
+		m := n - len(p)
+		if m > readBytesChunk {
+			m = readBytesChunk
+		}
+		off := len(p)
+		p = append(p, make([]byte, m)...)
+		if err := r.readFull(p[off:]); err != nil {
+			return p[:off], err
+		}
+	}
+	return p, nil
 }
 
 func (r *RdbReader) ReadUint8P() uint8 {
